@@ -231,7 +231,7 @@ def generate(rng, prop, tier):
     elif t == "T12":
         # the pure-Python Blowfish engine (the builtin bcrypt backend's core): its constant tables are built on first use
         for _ in range(nthreads):
-            threads.append([rng.choice([["bf_engine"], ["bf_engine"], ["bf_encipher", rng.randint(0, 2 ** 32 - 1), rng.randint(0, 2 ** 32 - 1)], ["bf_expand", f"key{rng.randint(0, 9)}"]])
+            threads.append([rng.choice([["bf_engine"], ["bf_engine"], ["bf_encipher", rng.randint(0, 2 ** 32 - 1), rng.randint(0, 2 ** 32 - 1)]])  # (a key expansion is ~10^5 traced lines: too slow under the scheduler)
                             for _ in range(rng.randint(1, 2))])
     elif t == "T10":
         # libpass context: cached properties and hashers shared by threads
